@@ -181,7 +181,7 @@ def properties(rep, cfg, opts, world, vcs, code, trace, hook_lines, args, old_ve
     # the dirty check is the first step: when it fails (a pattern file has uncommitted changes; or anything has and --allow-dirty is not given)
     # nothing after it happens
     d_eff = hg_adjust(vcs, dirty)
-    if has_vcs and eff_commit and not dry and not contradictory and fail not in ("fetch", "status") and "EStatus" in trace \
+    if has_vcs and eff_commit and not dry and not contradictory and fail not in ("fetch", "status") \
             and (d_eff == 2 or (d_eff == 1 and not allow_dirty)):
         if mutating or code == 0:
             rep.violation("the dirty check had to fail (%s), yet later steps happened / exit 0" % ("a pattern file is dirty" if d_eff == 2 else "the tree is dirty and --allow-dirty is not given"),
